@@ -169,6 +169,18 @@ def generate(tier, rng):
         key = keys[(i // per) % 2]
         cfg = gens.cfgs(key=key)[(i // per) % 2]      # without / with a self-IP list containing the contacted addresses
         yield script_for(rng, cfg, key, pl[i:i + per], "payloads %d..%d" % (i, i + per - 1))
+    # later segments of a flow already identified as SSH / Gh0st: every segment is judged on its own bytes (the SSH
+    # parser keeps no state), whatever the flow carried before
+    later = [b"ssh-2.0-OpenSSH_8.9p1\r\n", b"SSH_2.0-probe\r\n", b"HELO1.99-mail.example.org\r\n", b"H-2.0-probe\r\n", b"-2.0-x\r\n",
+             b"XXXX2.0-y\r\n", b"SSH-2.0-again\r\n", b"SSH-1.99-z\r\n", b"\r\n", b"", b"Gh0st", b"GET / HTTP/1.0\r\n\r\n", b"SSH-2.0-noeol"]
+    fr, sport = [], 30000
+    for first in (b"SSH-2.0-probe\r\n", b"SSH-1.99-Cisco-1.25\r\n", b"SS", b"SSH-2.0-unterminated", b"Gh0st\x00\x01"):
+        for v6 in (False, True):
+            s, d = gens.addr_pair(v6)
+            for k in range(0, len(later), 4):
+                sport += 1
+                fr += gens.handshake(keys[0], s, d, sport, 22, [first] + later[k:k + 4])
+    yield Script(gens.cfgs(key=keys[0])[0], fr, "later-segments")
 
 
 # ---------------- projection / monitors on the harness side ----------------
@@ -214,11 +226,19 @@ def project(script, i, o):
 def history_monitor(script, outs):
     """Independent Python cross-check of the implementation's answers (regex / zlib.decompress)."""
     bad = []
+    seen_flows = set()
     for i, f in enumerate(script.frames):
         r = request_of(f)
         if r is None:
             continue
         kind, p = r
+        if kind == "tcp":
+            # only the first data segment of a flow is judged here: later ones go to the responder the flow is bound to
+            pf = net.parse_frame(f)
+            flow = (pf.ip_src, pf.ip_dst, pf.sport, pf.dport)
+            if flow in seen_flows:
+                continue
+            seen_flows.add(flow)
         e = expected(p)
         if e is None:
             continue
